@@ -600,5 +600,7 @@ func runC07(r *Run) {
 			break
 		}
 	}
-	r.Finish("part 1: scripted histories (query parks / reply / give up / stray reply) on one TraditionalDnsConn, comparing the kind of read deadline in force with the model after every operation; part 2: transports {pipeline over stream, pipeline over datagram, reuse} x faults {dial error, dial that blocks, write error, EOF, reset, short frame, garbage frame, peer close with queries in flight, silence, silence after traffic, callers cancelled while dialing then the dial succeeds} x {unbounded context, cancel, deadline, transport Close} x {1, 3} callers, with connection deadlines shortened 100x; after each: Close, a later call, open connections, goroutines in transport code; part 3: Close racing with the simultaneous failure of 8..31 connections with queries in flight")
+	runC07Reuse(r)
+	runC07CloseRace(r)
+	r.Finish("part 1: scripted histories (query parks / reply / give up / stray reply) on one TraditionalDnsConn, comparing the kind of read deadline in force with the model after every operation; part 2: transports {pipeline over stream, pipeline over datagram, reuse} x faults {dial error, dial that blocks, write error, EOF, reset, short frame, garbage frame, peer close with queries in flight, silence, silence after traffic, callers cancelled while dialing then the dial succeeds} x {unbounded context, cancel, deadline, transport Close} x {1, 3} callers, with connection deadlines shortened 100x; after each: Close, a later call, open connections, goroutines in transport code; part 3: Close racing with the simultaneous failure of 8..31 connections with queries in flight; part 1b: scripted histories (query parks / reply / reply with the reader's deadline call held up and the next query sent the moment the reply is in / caller gives up / late reply / unexpected data) on one reused connection of a ReuseConnTransport, comparing the kind of read deadline in force with the model (run with the statement order regenerated from reusableConn.readLoop) after every operation; part 1c: the same window end to end with deadlines shortened 100x and a 1000 s idle timeout: 1..3 answered queries, then silence with an unbounded context; part 4: Close called while one caller is inside the transport's critical section (held there by a slow SetReadDeadline on the pooled connection) and 1..3 more calls queue up before or behind Close: Close and all calls return, no call is served on a connection dialed after Close returned, a later call fails at once, every connection dialed is closed, no goroutine is left")
 }
